@@ -126,6 +126,25 @@ Theorem c12_batched_rows_lie_in_the_shard :
 Proof. exact batched_rows_in_shard. Qed.
 Print Assumptions c12_batched_rows_lie_in_the_shard.
 
+(** With the proposed repair C10-fix-2 (the batch function asks the query's row tester before it hands a row
+    over; Props/C10.v) the hypothesis on the filter disappears: EVERY batched caller that passed the limit check
+    of its own handle receives rows of its shard only, whatever the Go types of its filter values and whatever
+    the other callers of the batch fetched.  (The harness probes which batch function the tree has.) *)
+Theorem c12_batched_rows_lie_in_the_shard_repaired :
+  forall h t fs arrival contents i rows l k v,
+    table_ok t = true -> columns_ok t = true ->
+    forallb (row_representable t) contents = true ->
+    In (i, rows) (batched_by_arrival_g matcher_matches_fixed t fs arrival contents) ->
+    caller_outcome h t (nth_filter fs i) = Proceeds ->
+    filter_ptrs_okb (nth_filter fs i) l = true ->
+    In l (enforced_limits h) -> In (k, v) l ->
+    exists d, read_value t k v d /\ Forall (fun r => in_shard (cell r k) d) rows.
+Proof. exact fixed_batched_rows_in_shard. Qed.
+Print Assumptions c12_batched_rows_lie_in_the_shard_repaired.
+
+(** Without the repair the hypothesis is needed: a caller of a shard-limited handle whose filter is outside it
+    can be handed a row of another shard ([ex_foreign_shard_row]). *)
+
 (** Any sequence of operations inside one transaction of the caller. *)
 Theorem c12_transaction_sequence_confined :
   forall h t bt ops l,
@@ -310,6 +329,22 @@ Example ex_rows_in_shard :
      (0, [[("id", DInt 1); ("shard", DInt 7); ("name", DStr "a"); ("nick", DNull)]])]
   /\ filter_transparent ex_users [("shard", GInt KI64 "" 7)] = true
   /\ caller_outcome ex_handle ex_users [("shard", GInt KI64 "" 7)] = Proceeds.
+Proof. repeat split; vm_compute; reflexivity. Qed.
+
+(** The leak the repair closes: the handle is limited to shard 7 and its caller asks for shard = 7, data = ''
+    (an empty, non-nil []byte); another caller of the same batch, on an unrestricted handle, fetches everything;
+    the matcher hands the first caller the shard-7 row whose data is NULL (fine: same shard) -- and with a limit
+    on data itself, a row outside the limit: *)
+Definition ex_blobs : table :=
+  mk_table "blobs" false [mk_col "id" true false (TyInt KI64 ""); mk_col "data" false false TyBytes].
+Definition ex_blob_handle : handle := mk_handle (Some [("data", GBytes "")]) None false false.
+
+Example ex_foreign_shard_row :
+  caller_outcome ex_blob_handle ex_blobs [("data", GBytes "")] = Proceeds
+  /\ batched_by_arrival ex_blobs [[("data", GBytes "")]; []] [[0; 1]] [[("id", DInt 1); ("data", DNull)]]
+     = [(0, [[("id", DInt 1); ("data", DNull)]]); (1, [[("id", DInt 1); ("data", DNull)]])]
+  /\ batched_by_arrival_g matcher_matches_fixed ex_blobs [[("data", GBytes "")]; []] [[0; 1]] [[("id", DInt 1); ("data", DNull)]]
+     = [(0, []); (1, [[("id", DInt 1); ("data", DNull)]])].
 Proof. repeat split; vm_compute; reflexivity. Qed.
 
 Example ex_table_nonempty : List.length db_methods = 18 /\ In ("UpsertRows", (false, true, true)) db_methods.
